@@ -7,7 +7,7 @@ HOOKS = {
     "add_only": True,
 }
 ENGINES = [
-    {"name": "grid", "path": "/verif/mc/props", "serves_properties": ["C04", "C06"],
+    {"name": "grid", "path": "/verif/mc/props", "serves_properties": ["C04", "C05", "C06"],
      "kind_free_text": "complete Cartesian products of finite input alphabets executed on the real code and compared with an explicit oracle or metamorphic relation"},
     {"name": "fault", "path": "/verif/mc/props/C08.py", "serves_properties": ["C08"],
      "kind_free_text": "fault-point enumerator: public-API fault menu x position and sys.settrace call-level injection, snapshot oracle"},
@@ -96,5 +96,14 @@ CHECKS["C06"] = dict(
          "Circle, CylinderSegment, Cuboid, mesh and Polyline. Every element is compared with the element-by-element evaluation.",
     note="rel. tolerance 1e-10 (measured scalar/vector routine differences <= 4e-16); the reference is the library's own one-source, "
          "one-observer static call, i.e. this decides independence from the rest of the call, not absolute correctness (C01).")
+CHECKS["C05"] = dict(
+    engine="grid", level="exploration", design_ref="DESIGN.md §4 C05",
+    technique="bounded-exhaustive enumeration of source-list arrangements (nested collections, duplicates, orders), tree-edit histories and excitation scalings, compared with explicit sums of single-leaf calls",
+    text="Every ordered list of up to 3 (thorough 4) items over {bare source, collections of 1-3 sources, nested collections of depth 2 "
+         "and 3, collection mixing sources and sensors, the same bare source again} x 3 observer forms x path-length patterns x sumup x "
+         "B/H is evaluated and compared with sums over my own flattening of children; on nested arrangements every ordered pair (thorough "
+         "triple) of {add, remove, move leaf, re-parent} is applied between computations; linearity: 10 classes x B/H x 4 excitations x "
+         "{6 scalings incl. 0, 1e-12, 1e12; sums with 3 partners} at inside/outside/far observers.",
+    note="rel. tolerance 1e-10; reference for a leaf is the library's single-source call.")
 _todo = "check not built yet in this session (planned, see DESIGN.md §4); nothing is claimed for it"
 NOT_APPLICABLE = [{"property_id": f"C{i:02d}", "reason": _todo} for i in range(1, 21) if f"C{i:02d}" not in CHECKS]
